@@ -1,7 +1,7 @@
 (* C05 property theorems about the CURRENT code (statements only; proofs in C05/Proofs.v, Trim.v,
    Tables.v, Optimal.v).  Pre-fix variants and their refutations: C05/Historic.v. *)
 From Coq Require Import ZArith QArith List Bool.
-From QV Require Import C05.Model C05.Proofs C05.Trim C05.Tables C05.Optimal C05.Eig.
+From QV Require Import C05.Model C05.Proofs C05.Trim C05.Tables C05.Optimal C05.Eig C05.Batch.
 Import ListNotations.
 Open Scope Q_scope.
 
@@ -148,6 +148,31 @@ Theorem C05_parse_opts_cache_transparent : forall calls, cached_run [] calls = p
 Proof. exact cache_transparent. Qed.
 Print Assumptions C05_parse_opts_cache_transparent.
 
+
+(* Batched input (x.ndim > 2: the generic routine on a stack of spectra, `gb_*` in C05/Batch.v).
+   The bond of the batched result is EXACTLY the largest count any member needs when it is judged
+   alone against its own spectrum (own s[0] for 'rel', own total for the rsum modes), which is also what
+   the accelerated 2D routine picks member by member: no member is cut below its own rule and the
+   bond is not larger than the worst member needs.  Every cutoff mode, cutoff, bond cap, renorm. *)
+Theorem C05_batch_bond_is_max_of_member_counts : forall m c mb rn ss, ss <> [] -> uniform (lenZ (hd [] ss)) ss ->
+  Forall nonneg ss -> Forall (fun s => s <> []) ss -> (mb = -1 \/ 1 <= mb)%Z ->
+  gb_kept m c mb rn ss = zmax (map (n_kept m c mb rn) ss)
+  /\ (forall s, In s ss -> (n_kept m c mb rn s <= gb_kept m c mb rn ss)%Z)
+  /\ (exists s, In s ss /\ n_kept m c mb rn s = gb_kept m c mb rn ss).
+Proof. exact batch_kept_is_max_numba. Qed.
+Print Assumptions C05_batch_bond_is_max_of_member_counts.
+
+(* every member of the batch is sliced at that common bond *)
+Theorem C05_batch_members_same_bond : forall m c mb rn ss, uniform (lenZ (hd [] ss)) ss ->
+  Forall (fun r => lenZ (t_svals r) = gb_kept m c mb rn ss) (gb_trim m c mb rn ss).
+Proof. exact batch_members_same_bond. Qed.
+Print Assumptions C05_batch_members_same_bond.
+
+(* a batch of one is the 2D generic routine *)
+Theorem C05_batch_singleton_is_generic : forall m c mb rn s, gb_trim m c mb rn [s] = [g_trim m c mb rn s].
+Proof. exact batch_singleton. Qed.
+Print Assumptions C05_batch_singleton_is_generic.
+
 Example C05_examples :
   (* ties: weight equal to the target is discarded (code's <=, docs say <) *)
   n_nchi_dynamic Sum2 (5 # 4) [4 # 1; 2 # 1; 1 # 1; 1 # 2] = 2%Z
@@ -164,4 +189,10 @@ Example C05_examples :
   /\ t_rn (g_trim RSum2 (6 # 100) (-1) 1 [4 # 1; 2 # 1; 1 # 1; 1 # 2]) = Some (1%Z, 15 # 2, 6 # 1)
   /\ cached_run [] [(RSum2, PInt 1); (RSum2, PBool true)] = [1; 2]%Z
   /\ pure_run [(RSum2, PInt 1); (RSum2, PBool true)] = [1; 2]%Z.
+Proof. vm_compute. repeat split. Qed.
+
+(* members of different scale: the quiet member (own s[0] = 1) needs 3 values at rel cutoff 1/100 *)
+Example C05_batch_example :
+  gb_kept Rel (1 # 100) (-1) 0 [[50 # 1; 1 # 1000; 1 # 10000; 1 # 100000]; [1 # 1; 1 # 5; 1 # 20; 1 # 10000]] = 3%Z
+  /\ n_kept Rel (1 # 100) (-1) 0 [50 # 1; 1 # 1000; 1 # 10000; 1 # 100000] = 1%Z.
 Proof. vm_compute. repeat split. Qed.
